@@ -66,10 +66,36 @@ func (r *Run) record(n *Node, field string, args map[string]interface{}) {
 	r.Args = append(r.Args, ArgRecord{k, args})
 }
 
+// BadLeaf is what a resolver under a FaultBadLeaf plan returns where an Int belongs.
+const BadLeaf = "notanumber"
+
+// BadLeafFields are the fields a FaultBadLeaf plan may name: Int and [Int] typed (mi is method backed, so reflection can realise it).
+var BadLeafFields = map[string]bool{"i": true, "mi": true, "ints": true}
+
+// value is fieldValue under the run's fault plan (only FaultBadLeaf changes the value itself).
+func (r *Run) value(n *Node, field string, args map[string]interface{}) interface{} {
+	v := fieldValue(n, field, args)
+	if r.Faults[CallKey{n.ID, field}] == FaultBadLeaf && BadLeafFields[field] {
+		switch tv := v.(type) {
+		case int:
+			return BadLeaf
+		case []interface{}:
+			if len(tv) > 0 {
+				cp := append([]interface{}{}, tv...)
+				cp[NthFailIndex(len(tv))] = BadLeaf
+				return cp
+			}
+		}
+	}
+	return v
+}
+
 func fieldValue(n *Node, field string, args map[string]interface{}) interface{} {
 	switch field {
 	case "tri":
 		return fmt.Sprintf("%v/%v/%v", args["a"], args["b"], args["c"])
+	case "paint":
+		return PaintResult(args["c"], args["t"])
 	case "rev":
 		return fmt.Sprintf("x=%v,y=%v", args["x"], args["y"])
 	case "pick":
@@ -125,7 +151,7 @@ func (x *rnode) Resolve(field *ggql.Field, args map[string]interface{}) (interfa
 		}
 		return nil, err
 	}
-	return x.wrap(fieldValue(x.n, field.Name, args)), nil
+	return x.wrap(x.r.value(x.n, field.Name, args)), nil
 }
 
 func (x *rnode) wrap(v interface{}) interface{} {
@@ -219,7 +245,7 @@ func (ar *AnyRes) Resolve(obj interface{}, field *ggql.Field, args map[string]in
 			}
 			return nil, err
 		}
-		w := ar.wrap(fieldValue(to, field.Name, args))
+		w := ar.wrap(ar.r.value(to, field.Name, args))
 		if al, ok := w.(*anyList); ok && ar.r.Faults[CallKey{to.ID, field.Name}] == FaultNth {
 			al.failAt = NthFailIndex(len(al.items))
 		}
@@ -236,7 +262,7 @@ func (ar *AnyRes) Resolve(obj interface{}, field *ggql.Field, args map[string]in
 			}
 			return nil, err
 		}
-		return ar.wrap(fieldValue(n, field.Name, args)), nil
+		return ar.wrap(ar.r.value(n, field.Name, args)), nil
 	}
 	return nil, fmt.Errorf("AnyRes: unexpected %T", obj)
 }
@@ -379,6 +405,31 @@ func CanonText(v interface{}) string {
 
 // Rev takes its parameters in the opposite order of the GraphQL declaration rev(x, y): correct only
 // when registered with RegisterField(type, "rev", "Rev", "y", "x").
+// Shade is a named string type: a String argument must be converted to it.
+type Shade string
+
+// PaintResult is the value every back end and the reference give for paint(c, t); an argument that was not given prints as "".
+func PaintResult(c, t interface{}) string {
+	str := func(v interface{}) string {
+		if v == nil {
+			return ""
+		}
+		return fmt.Sprint(v)
+	}
+	return "paint:" + str(c) + "/" + str(t)
+}
+
+func (c *Common) Paint(col string, t Shade) (interface{}, error) {
+	c.Xr.record(c.Xn, "paint", map[string]interface{}{"c": col, "t": string(t)})
+	if err := c.Xr.fault(CallKey{c.Xn.ID, "paint"}); err != nil {
+		if c.Xr.Faults[CallKey{c.Xn.ID, "paint"}] == FaultValErr {
+			return PaintResult(col, string(t)), err // the value AND an error
+		}
+		return nil, err
+	}
+	return PaintResult(col, string(t)), nil
+}
+
 func (c *Common) Rev(y, x string) (interface{}, error) {
 	c.Xr.record(c.Xn, "rev", map[string]interface{}{"x": x, "y": y})
 	return fmt.Sprintf("x=%v,y=%v", x, y), nil
@@ -436,7 +487,7 @@ func (c *Common) call(field string) (interface{}, error) {
 		}
 		return nil, err
 	}
-	return c.Xn.F[field], nil
+	return c.Xr.value(c.Xn, field, nil), nil
 }
 
 func (c *Common) Mi() (interface{}, error) { return c.call("mi") }
